@@ -20,8 +20,8 @@ Variants ==
    passive  |-> {"off", "on", "i_thr0", "i_timeout0"},
    ratelimit|-> {"off", "on", "i_max0", "i_refill0"},
    breaker  |-> {"off", "on", "on_mr0", "i_ft0", "i_st0", "i_to0", "i_iv0", "i_mr_lt_st"},
-   metrics  |-> {"off", "on", "i_port0", "i_nopath"},
-   admin    |-> {"off", "on", "on_lists", "i_port"},
+   metrics  |-> {"off", "off_port19091", "on", "i_port0", "i_nopath"},
+   admin    |-> {"off", "off_port8080", "on", "on_lists", "i_port"},
    loglevel |-> {"info", "debug", "warn", "error", "fatal", "unset", "i_verbose"},
    logformat|-> {"json", "console", "text", "unset", "i_xml"},
    plugins  |-> {"off", "sample_chain", "size_int", "gzip_int_level", "gzip_float_level", "auth", "u_unknown", "u_gzip_nolevel"}]
